@@ -7,30 +7,25 @@ import (
 
 	"verif/tools/load"
 	"verif/tools/model"
+	"verif/tools/pa"
 )
 
 func main() {
 	P, _ := load.Load(load.Config{Repo: "/repo"})
-	fn := P.Func(load.ModPath, "(*Policy).sanitizeAttrs")
+	fn := P.Func(load.ModPath+"/css", "AllHandler")
 	A := model.NewAnalysis(fn)
-	//A.BindConst(fn.Params[1], "a")
 	for _, b := range fn.Blocks {
 		if ifi, ok := b.Instrs[len(b.Instrs)-1].(*ssa.If); ok {
 			A.Cond(ifi.Cond)
 		}
+		if r, ok := b.Instrs[len(b.Instrs)-1].(*ssa.Return); ok {
+			fmt.Println("ret:", A.Str(A.Cond(r.Results[0])))
+		}
 	}
-	for _, b := range fn.Blocks {
-		for _, in := range b.Instrs {
-			if ph, ok := in.(*ssa.Phi); ok && ph.Type().String() == "bool" {
-				fmt.Printf("%s (%s) b%d:\n", ph.Name(), ph.Comment, b.Index)
-				for i, e := range ph.Edges {
-					s := A.Str(A.Cond(e))
-					if len(s) > 300 {
-						s = s[:300]
-					}
-					fmt.Printf("   from b%d: %s\n", b.Preds[i].Index, s)
-				}
-			}
+	for i, at := range A.Atoms {
+		fmt.Println(i, at.Kind, at.Key)
+		if cl, ok := at.X.(*ssa.Call); ok {
+			fmt.Println("   callee", pa.CalleeName(cl.Common().StaticCallee()))
 		}
 	}
 }
